@@ -45,9 +45,9 @@ fn to_r(f: &Feature) -> RFeature {
     }
 }
 
-const TAGS0: &[&str] = &["N", "V", "P"];
-const TAGS1: &[&str] = &["x", "y-z", "w w"];
-const TAGS2: &[&str] = &["k1", "k2", "k3"];
+const TAGS0: &[&str] = &["N", "V", "P", "Adj", "Adv"];
+const TAGS1: &[&str] = &["x", "y-z", "w w", "u", "v/w"];
+const TAGS2: &[&str] = &["k1", "k2", "k3", "k4", "k5"];
 
 #[derive(Clone, Copy, PartialEq, Eq, Debug)]
 pub enum CorpusClass {
@@ -130,7 +130,7 @@ pub fn gen_train_case(rng: &mut Rng, lo: u8, hi: u8, class: CorpusClass, with_ta
         if n_tags > 0 {
             for sp in ref_partition(n, &labels) {
                 let surf: String = chars[sp.start..sp.end].iter().collect();
-                let p = *pref.entry(surf).or_insert([rng.below(3), rng.below(3), rng.below(3)]);
+                let p = *pref.entry(surf).or_insert([rng.below(5), rng.below(5), rng.below(5)]);
                 let mut ts = vec![];
                 for (j, pool) in cat_pools.iter().enumerate().take(n_tags) {
                     let absent = match class {
@@ -144,7 +144,7 @@ pub fn gen_train_case(rng: &mut Rng, lo: u8, hi: u8, class: CorpusClass, with_ta
                             CorpusClass::AmbiguousTags => rng.chance(1, 2),
                             _ => rng.chance(1, 5),
                         };
-                        let k = if noise { rng.below(3) } else { p[j] };
+                        let k = if noise { rng.below(5) } else { p[j] };
                         ts.push(Some(pool[k].to_string()));
                     }
                 }
@@ -152,6 +152,19 @@ pub fn gen_train_case(rng: &mut Rng, lo: u8, hi: u8, class: CorpusClass, with_ta
             }
         }
         corpus.push(RefSentence { chars, labels, tags });
+    }
+    // rare: the same line twice in a row with the same number of annotated boundaries at other positions
+    if !corpus.is_empty() && rng.chance(1, 12) {
+        let i = rng.below(corpus.len());
+        let mut twin = corpus[i].clone();
+        let n = twin.labels.len();
+        if n >= 2 {
+            twin.labels.rotate_left(1 + rng.below(n - 1));
+            for t in twin.tags.iter_mut() {
+                t.clear();
+            }
+            corpus.insert(i + 1, twin);
+        }
     }
     // dictionary: unique substrings of the corpus (or of the alphabet when the corpus is empty)
     let mut dict: Vec<String> = vec![];
@@ -202,7 +215,7 @@ pub fn gen_train_case(rng: &mut Rng, lo: u8, hi: u8, class: CorpusClass, with_ta
             }
             let n = w.len();
             let mut tags = vec![vec![]; n];
-            tags[n - 1] = (0..n_tags).map(|j| if rng.chance(4, 5) { Some(cat_pools[j][rng.below(3)].to_string()) } else { None }).collect();
+            tags[n - 1] = (0..n_tags).map(|j| if rng.chance(4, 5) { Some(cat_pools[j][rng.below(5)].to_string()) } else { None }).collect();
             tag_dict.push(RefSentence { chars: w, labels: vec![0; n - 1], tags });
         }
     }
@@ -265,7 +278,23 @@ pub fn run_c10(ctx: &mut Ctx, from: u64, to: u64) {
         let tags = rng.chance(1, 3);
         let tc = gen_train_case(&mut rng, 0, 4, class, tags);
         let r = guard(|| {
-            let sents: Vec<Sentence<'static, 'static>> = tc.corpus.iter().map(build_sentence).collect();
+            let sents: Vec<Sentence<'static, 'static>> = tc
+                .corpus
+                .iter()
+                .enumerate()
+                .map(|(i, rs)| {
+                    if i % 2 == 0 && !rs.labels.is_empty() && rs.labels.iter().all(|&l| l == 2) && rs.max_tags() == 0 {
+                        // an unannotated line loaded into an object that held the SAME text fully annotated
+                        let mut full = rs.clone();
+                        full.labels.iter_mut().enumerate().for_each(|(j, l)| *l = (j % 2) as u8);
+                        let mut s: Sentence<'static, 'static> = Sentence::from_tokenized(&vgen::fmt::write_tokenized(&full)).expect("reference-written line");
+                        s.update_raw(rs.text()).expect("update_raw");
+                        s
+                    } else {
+                        build_sentence(rs)
+                    }
+                })
+                .collect();
             let mut trainer = Trainer::new(tc.cfg.char_w, tc.cfg.char_n, tc.cfg.type_w, tc.cfg.type_n, tc.cfg.dict.clone(), tc.cfg.bucket, &[])
                 .map_err(|e| format!("{e}"))?;
             let mut per_sentence = vec![];
@@ -390,7 +419,15 @@ pub fn run_c09(ctx: &mut Ctx, from: u64, to: u64) {
             } else {
                 tc.cfg.type_w = 0;
             }
+        } else if k % 10 == 4 {
+            // windows beyond the 7-slot score padding
+            if rng.chance(1, 2) {
+                tc.cfg.char_w = rng.urange(5, 12) as u8;
+            } else {
+                tc.cfg.type_w = rng.urange(5, 12) as u8;
+            }
         }
+        ctx.flag("configs_with_window_of_8_or_more", tc.cfg.char_w >= 8 || tc.cfg.type_w >= 8);
         ctx.flag("configs_with_char_window_gt_type_window", tc.cfg.char_w > tc.cfg.type_w);
         ctx.flag("configs_with_type_window_gt_char_window", tc.cfg.type_w > tc.cfg.char_w);
         ctx.flag("configs_with_window_0", zero);
